@@ -7,7 +7,8 @@ __author__ = "Thomas McCullough"
 
 
 from typing import Union, Optional, Dict
-from sarpy.io.xml.base import Serializable, ParametersCollection
+from sarpy.io.xml.base import Serializable, ParametersCollection, \
+    find_first_child, find_children, create_new_node
 from sarpy.io.xml.descriptors import StringEnumDescriptor, FloatDescriptor, \
     SerializableDescriptor, ParametersDescriptor
 
@@ -545,6 +546,30 @@ class ErrorStatisticsType(Serializable):
         self.Unmodeled = Unmodeled
         self.AdditionalParms = AdditionalParms
         super(ErrorStatisticsType, self).__init__(**kwargs)
+
+    @classmethod
+    def from_node(cls, node, xml_ns, ns_key=None, kwargs=None):
+        if kwargs is None:
+            kwargs = {}
+        # the Parameter entries are children of the AdditionalParms element, not of ErrorStatistics itself
+        ap_key = cls._child_xml_ns_key.get('AdditionalParms', ns_key)
+        ap_node = find_first_child(node, 'AdditionalParms', xml_ns, ap_key)
+        kwargs['AdditionalParms'] = None if ap_node is None else find_children(ap_node, 'Parameter', xml_ns, ap_key)
+        return super(ErrorStatisticsType, cls).from_node(node, xml_ns, ns_key=ns_key, kwargs=kwargs)
+
+    def to_node(self, doc, tag, ns_key=None, parent=None, check_validity=False, strict=DEFAULT_STRICT, exclude=()):
+        node = super(ErrorStatisticsType, self).to_node(
+            doc, tag, ns_key=ns_key, parent=parent, check_validity=check_validity, strict=strict,
+            exclude=exclude+('AdditionalParms', ))
+        the_params = self.AdditionalParms
+        if the_params is not None and 'AdditionalParms' not in exclude and the_params.get_collection():
+            ap_key = self._child_xml_ns_key.get('AdditionalParms', getattr(self, '_xml_ns_key', ns_key))
+            if ap_key == 'default':
+                ap_key = None
+            ap_node = create_new_node(
+                doc, 'AdditionalParms' if ap_key is None else '{}:AdditionalParms'.format(ap_key), parent=node)
+            the_params.to_node(doc, ns_key=ap_key, parent=ap_node, check_validity=check_validity, strict=strict)
+        return node
 
     def version_required(self):
         """
